@@ -196,6 +196,16 @@ def byte_string(rng, n, p):
         k = rng.choice([192, 192, 128, 64])
         v = ((p >> k) << k) | rng.getrandbits(k)
         return 'toplimb-tie', v.to_bytes(32, 'big').rjust(n, b'\x00')
+    if c < 0.82 and n >= 9:
+        # sparse 64-bit limbs (zero / all-ones / one / random per limb): zero interior limbs under a non-zero higher limb,
+        # carries that run through several limbs
+        nl = (n + 7) // 8
+        v = 0
+        for i in range(nl):
+            v |= rng.choice([0, 0, (1 << 64) - 1, 1, rng.getrandbits(64), rng.getrandbits(64)]) << (64 * i)
+        if v >> (64 * (nl - 1)) == 0:
+            v |= rng.choice([1, (1 << 64) - 1, rng.getrandbits(64) | 1]) << (64 * (nl - 1))
+        return 'sparse-limbs', (v % (1 << (8 * n))).to_bytes(n, 'big')
     return 'uniform', bytes(rng.randrange(256) for _ in range(n))
 
 
